@@ -402,7 +402,15 @@ def discarded_exceptions(fi):
 
 
 def vocabulary(t):
-    return {x[1] for x in T.walk(t) if T.is_op(x)}
+    out = set()
+    for x in T.walk(t):
+        if T.is_op(x):
+            if x[1] == 'LT' and len(x) == 4 and any((T.is_const(y) and isinstance(y[1], (str, bytes))) or T.type_of(y) in ('str', 'bytes')
+                                                  for y in x[2:]):
+                out.add('LT(text)')         # ordering of characters / texts: another operator than the integer comparison
+            else:
+                out.add(x[1])
+    return out
 
 
 UNINTERPRETED_OPS = {'SUM', 'MIN', 'MAX', 'ABS', 'POW', 'ROUND', 'DIVMOD', 'METHOD', 'ZIP', 'SORTED', 'DICTGET', 'ANY', 'ALL', 'LIST', 'TUPLE',
